@@ -53,7 +53,7 @@ func runStress(seed int64) Result {
 	// the package builds lazily on first use - field-name tables, struct caches, meta-schema data - is then built
 	// while other goroutines already read it). Nothing before this line has touched a Schema.
 	{
-		const coldDoc = `{"type":"object","properties":{"a":{"type":"integer","minimum":1},"b":{"enum":[1,"x",null]}},"required":["a"],"x-vendor":{"k":[1,2]},"$defs":{"d":{"not":{}}}}`
+		const coldDoc = `{"type":"object","properties":{"a":{"type":"integer","minimum":1},"b":{"enum":[1,"x",null]},"c":{"pattern":"^c[0-9]+$"}},"patternProperties":{"^p_":{"type":"string"},"_q$":true},"required":["a"],"x-vendor":{"k":[1,2]},"$defs":{"d":{"not":{}}}}`
 		outs := make([]string, G)
 		errs := make([]string, G)
 		var wgc sync.WaitGroup
@@ -318,6 +318,21 @@ func runStress(seed int64) Result {
 					if _, err := lit.Resolve(nil); err != nil {
 						mu.Lock()
 						addFail("concurrent-resolve", "Resolve of the shared literal", "nil", err.Error())
+						mu.Unlock()
+					}
+				}
+				{
+					// a schema nobody has resolved before (fresh regular expressions): whatever Resolve memoises
+					// process-wide is written while the other goroutines resolve theirs
+					var fresh jsonschema.Schema
+					txt := fmt.Sprintf(`{"properties":{"s":{"pattern":"^g%d_%d[a-z]*$"}},"patternProperties":{"^k%d_%d":{"type":"integer"}}}`, g, m, g, m)
+					json.Unmarshal([]byte(txt), &fresh)
+					frs, err := fresh.Resolve(nil)
+					okv := err == nil && frs.Validate(map[string]any{"s": fmt.Sprintf("g%d_%dab", g, m), fmt.Sprintf("k%d_%dx", g, m): 1.0}) == nil &&
+						frs.Validate(map[string]any{"s": "nope"}) != nil && frs.Validate(map[string]any{fmt.Sprintf("k%d_%dx", g, m): "s"}) != nil
+					if !okv {
+						mu.Lock()
+						addFail("concurrent-resolve", "Resolve + Validate of a schema with fresh patterns", "resolves; T,F,F", fmt.Sprint(err))
 						mu.Unlock()
 					}
 				}
